@@ -28,13 +28,12 @@ func (c *ShipConnection) handleShipMessage(timeout bool, message []byte) {
 				// wait a bit to let it send
 				<-time.After(500 * time.Millisecond)
 
-				//
-				c.dataWriter.CloseDataConnection(4001, "close")
-				c.infoProvider.HandleConnectionClosed(c, c.getState() == model.SmeStateComplete)
+				// close once, stopping the handshake timer
+				c.CloseConnection(false, 4001, "close")
 			case model.ConnectionClosePhaseTypeConfirm:
-				// we got a confirmation so close this connection
-				c.dataWriter.CloseDataConnection(4001, "close")
-				c.infoProvider.HandleConnectionClosed(c, c.getState() == model.SmeStateComplete)
+				// we got a confirmation so close this connection, unless
+				// the close is already in progress
+				c.CloseConnection(false, 4001, "close")
 			}
 
 			return
